@@ -29,7 +29,7 @@ type Run struct {
 	ShardI   int
 	ShardN   int
 	ReplayID string
-	Mutant   string // free-form: lets self-tests switch on deliberately wrong oracles (unused in checks)
+	Reverse  bool // VERIF_ORDER=reverse: tests that support it enumerate their case list backwards
 
 	mu      sync.Mutex
 	out     *os.File
@@ -73,6 +73,7 @@ func Start(t *testing.T, prop string) *Run {
 		}
 	}
 	r.ReplayID = os.Getenv("VERIF_REPLAY_CASE")
+	r.Reverse = os.Getenv("VERIF_ORDER") == "reverse"
 	if path := os.Getenv("VERIF_OUT"); path != "" {
 		f, err := os.OpenFile(path, os.O_CREATE|os.O_WRONLY|os.O_APPEND, 0o644)
 		if err != nil {
@@ -148,7 +149,13 @@ type Case struct {
 	sigs     map[string]bool
 	viols    int
 	op       string
+	result   string
 }
+
+// Result records the outcome of the case as a string that must not depend on
+// which other cases ran before it in the same process; the driver compares it
+// across worker processes that enumerate the cases in different orders.
+func (c *Case) Result(s string) { c.result = s }
 
 // Case runs f as one case if it belongs to this worker's shard (or is the
 // case being replayed). The case-start record, with the complete descriptor,
@@ -186,7 +193,7 @@ func (r *Run) Case(id string, desc any, f func(c *Case)) {
 	for i, s := range sigs {
 		ntl[i] = nt[s]
 	}
-	r.emit(map[string]any{"t": "case-end", "id": id, "ms": time.Since(t0).Milliseconds(), "sigs": sigs, "nontrivial": ntl, "counters": c.counters, "violations": c.viols})
+	r.emit(map[string]any{"t": "case-end", "id": id, "ms": time.Since(t0).Milliseconds(), "sigs": sigs, "nontrivial": ntl, "counters": c.counters, "violations": c.viols, "result": c.result})
 }
 
 // Rand is the case's private PRNG (seed recorded in case-start).
